@@ -54,7 +54,7 @@ Fixpoint cell_to_grid (g : grid) (c : list Q) : list Q :=
   | _, _ => []
   end.
 
-Definition centre1 (a : axis) (i : Z) : Q := alo a + (inject_Z i + 1 # 2) * adisc a.
+Definition centre1 (a : axis) (i : Z) : Q := alo a + (inject_Z i + (1 # 2)) * adisc a.
 
 Fixpoint cell_centre (g : grid) (idx : list Z) : list Q :=
   match g, idx with
